@@ -5,16 +5,10 @@ import Blots.Lemmas.FormatLemmas
 
   * `commentsG rt e`  : the comments of the tree in source order (`rt` = count the trailing
     comment of the `return` item of do-blocks, which `format_do_block_multiline` never prints);
-  * `Good ps cs`      : the comment pieces of `ps` were copied, in order, from the comments `cs`
-    (`commentOrigs ps = cs`) and every comment piece shows its comment up to the one rewrite
-    the formatter performs on formatted text (`CommentKept`: carriage returns deleted, line
-    feeds deleted at the end);
+  * `Good ps cs`      : the comment pieces of `ps` are exactly the comments `cs`
+    (`commentPieces ps = cs`: one for one, in order, character for character);
   * `good_impl` …     : `Good (fmtImplP w indent e) (commentsG false e)` by mutual structural
-    induction over Expr / Item / Entry / Key and their lists, through every layout branch;
-  * `CommentKept s o` with a clean `o` (no `'\r'`, not ending in `'\n'`) gives `s = o`.
-  * `render_relineP` : the piece-level `relineP` renders to the `lines()` / `join("\n")`
-    expression of `format_binary_op_multiline` (`relines`, via `joinNl_linesL`,
-    `relinesL_eq_T1`).
+    induction over Expr / Item / Entry / Key and their lists, through every layout branch.
 -/
 namespace Blots
 namespace FormatP
@@ -296,109 +290,7 @@ theorem commentsG_nil_of_single (e : Expr) (rt : Bool) (h : hasNewline (fmtSingl
   · rfl
   · rw [anyComment_forces_multiline e ha] at h; cases h
 
-/-! ### what the formatter may do to the text of a comment -/
-
-/-- characters other than carriage returns -/
-def dropCR (l : List Char) : List Char := l.filter (· != '\r')
-
-/-- `out` is `c` with some carriage returns deleted and possibly line feeds deleted at its end -/
-def keptL (out c : List Char) : Prop :=
-  out.Sublist c ∧ ∃ k, dropCR c = dropCR out ++ List.replicate k '\n'
-
-/-- the text `shown` in the output for the comment `orig` of the tree -/
-def CommentKept (shown orig : String) : Prop := keptL shown.toList orig.toList
-
-theorem keptL_refl (l : List Char) : keptL l l := ⟨List.Sublist.refl l, 0, by simp⟩
-
-theorem replicate_append_replicate {α} (a b : Nat) (x : α) :
-    List.replicate a x ++ List.replicate b x = List.replicate (a + b) x := by
-  induction a with
-  | zero => simp
-  | succ n ih => rw [Nat.succ_add, List.replicate_succ, List.replicate_succ, List.cons_append, ih]
-
-theorem keptL_trans {a b c : List Char} (h1 : keptL a b) (h2 : keptL b c) : keptL a c := by
-  obtain ⟨s1, k1, e1⟩ := h1
-  obtain ⟨s2, k2, e2⟩ := h2
-  refine ⟨s1.trans s2, k1 + k2, ?_⟩
-  rw [e2, e1, List.append_assoc, replicate_append_replicate]
-
-theorem stripCRs_sublist (next : Option Char) : ∀ l : List Char, (stripCRs next l).Sublist l
-  | [] => List.Sublist.slnil
-  | c :: t => by
-    simp only [stripCRs]
-    split
-    · exact List.Sublist.cons _ (stripCRs_sublist next t)
-    · exact List.Sublist.cons_cons _ (stripCRs_sublist next t)
-
-theorem dropCR_stripCRs (next : Option Char) : ∀ l : List Char, dropCR (stripCRs next l) = dropCR l
-  | [] => rfl
-  | c :: t => by
-    simp only [stripCRs]
-    split
-    · rename_i h
-      simp only [Bool.and_eq_true, beq_iff_eq] at h
-      simp [dropCR, h.1]
-      exact dropCR_stripCRs next t
-    · simp only [dropCR, List.filter_cons]
-      split
-      · congr 1; exact dropCR_stripCRs next t
-      · exact dropCR_stripCRs next t
-
-theorem keptL_stripCRs (next : Option Char) (l : List Char) : keptL (stripCRs next l) l :=
-  ⟨stripCRs_sublist next l, 0, by simp [dropCR_stripCRs]⟩
-
-theorem keptL_dropLast (l : List Char) (h : l.getLast? = some '\n') : keptL l.dropLast l := by
-  refine ⟨List.dropLast_sublist l, 1, ?_⟩
-  have hl : l = l.dropLast ++ ['\n'] := by
-    cases l with
-    | nil => simp at h
-    | cons a t =>
-      have hne : a :: t ≠ [] := by simp
-      have := List.dropLast_concat_getLast hne
-      rw [List.getLast?_eq_some_getLast hne] at h
-      injection h with h
-      rw [h] at this
-      exact this.symm
-  conv => lhs; rw [hl]
-  simp [dropCR, List.filter_append]
-
-/-- a comment without carriage return that does not end in a line feed is shown unchanged -/
-def cleanL (c : List Char) : Prop := '\r' ∉ c ∧ c.getLast? ≠ some '\n'
-
-theorem dropCR_eq_self {c : List Char} (h : '\r' ∉ c) : dropCR c = c := by
-  unfold dropCR
-  rw [List.filter_eq_self]
-  intro a ha
-  simp only [bne_iff_ne, ne_eq]
-  intro hr; subst hr; exact h ha
-
-theorem getLast?_append_replicate_succ (a : List Char) (k : Nat) :
-    (a ++ List.replicate (k + 1) '\n').getLast? = some '\n' := by
-  rw [List.replicate_succ', ← List.append_assoc, List.getLast?_append]
-  simp
-
-theorem keptL_clean {out c : List Char} (h : keptL out c) (hc : cleanL c) : out = c := by
-  obtain ⟨hs, k, hk⟩ := h
-  rw [dropCR_eq_self hc.1] at hk
-  cases k with
-  | succ k => exact absurd (hk ▸ getLast?_append_replicate_succ _ k) hc.2
-  | zero =>
-    simp only [List.replicate_zero, List.append_nil] at hk
-    apply hs.eq_of_length_le
-    rw [hk]
-    exact List.length_filter_le _ _
-
-def cleanComment (c : String) : Prop := cleanL c.toList
-
-theorem CommentKept.eq_of_clean {s o : String} (h : CommentKept s o) (hc : cleanComment o) : s = o :=
-  String.toList_inj.mp (keptL_clean h hc)
-
 /-! ### pieces: rendering, comment pieces -/
-
-/-- a comment piece shows its comment, up to `CommentKept` -/
-def _root_.Blots.Piece.Kept : Piece → Prop
-  | .text _ => True
-  | .comment o s => CommentKept s o
 
 theorem render_nil : render [] = "" := rfl
 
@@ -417,50 +309,35 @@ theorem render_single (s : String) : render [.text s] = s := by
   rw [render_cons, render_nil, String.append_empty]
   rfl
 
-theorem origs_nil : commentOrigs [] = [] := rfl
-theorem origs_append (a b : List Piece) : commentOrigs (a ++ b) = commentOrigs a ++ commentOrigs b := by
-  simp [commentOrigs, List.filterMap_append]
-theorem origs_text (s : String) (l : List Piece) : commentOrigs (.text s :: l) = commentOrigs l :=
-  List.filterMap_cons_none rfl
-theorem origs_comment (o s : String) (l : List Piece) :
-    commentOrigs (.comment o s :: l) = o :: commentOrigs l :=
-  List.filterMap_cons_some rfl
-
+theorem shown_nil : commentPieces [] = [] := rfl
+theorem shown_append (a b : List Piece) :
+    commentPieces (a ++ b) = commentPieces a ++ commentPieces b := by
+  simp [commentPieces, List.filterMap_append]
 theorem shown_text (s : String) (l : List Piece) : commentPieces (.text s :: l) = commentPieces l :=
   List.filterMap_cons_none rfl
-theorem shown_comment (o s : String) (l : List Piece) :
-    commentPieces (.comment o s :: l) = s :: commentPieces l :=
+theorem shown_comment (s : String) (l : List Piece) :
+    commentPieces (.comment s :: l) = s :: commentPieces l :=
   List.filterMap_cons_some rfl
 
-/-- `Good ps cs`: the comment pieces of `ps` are copies of the comments `cs`, one for one and in
-    order, and each of them shows its comment (up to `CommentKept`) -/
-def Good (ps : List Piece) (cs : List String) : Prop :=
-  commentOrigs ps = cs ∧ ∀ p ∈ ps, p.Kept
+/-- `Good ps cs`: the comment pieces of `ps` are exactly the comments `cs`, one for one, in
+    order, character for character -/
+def Good (ps : List Piece) (cs : List String) : Prop := commentPieces ps = cs
 
-theorem Good.nil : Good [] [] := ⟨rfl, fun _ h => by cases h⟩
+theorem Good.nil : Good [] [] := rfl
 
 theorem Good.text {l : List Piece} {c : List String} (s : String) (h : Good l c) :
-    Good (.text s :: l) c :=
-  ⟨by rw [origs_text]; exact h.1, fun p hp => by
-    rcases List.mem_cons.mp hp with rfl | hp
-    · trivial
-    · exact h.2 p hp⟩
+    Good (.text s :: l) c := by
+  unfold Good; rw [shown_text]; exact h
 
 theorem Good.single (s : String) : Good [.text s] [] := Good.text s Good.nil
 
 theorem Good.comment {l : List Piece} {c : List String} (o : String) (h : Good l c) :
-    Good (.comment o o :: l) (o :: c) :=
-  ⟨by rw [origs_comment, h.1], fun p hp => by
-    rcases List.mem_cons.mp hp with rfl | hp
-    · exact keptL_refl _
-    · exact h.2 p hp⟩
+    Good (.comment o :: l) (o :: c) := by
+  unfold Good at h ⊢; rw [shown_comment, h]
 
 theorem Good.append {a b : List Piece} {ca cb : List String} (ha : Good a ca) (hb : Good b cb) :
-    Good (a ++ b) (ca ++ cb) :=
-  ⟨by rw [origs_append, ha.1, hb.1], fun p hp => by
-    rcases List.mem_append.mp hp with hp | hp
-    · exact ha.2 p hp
-    · exact hb.2 p hp⟩
+    Good (a ++ b) (ca ++ cb) := by
+  unfold Good at ha hb ⊢; rw [shown_append, ha, hb]
 
 theorem Good.snoc {a : List Piece} {c : List String} (s : String) (h : Good a c) :
     Good (a ++ [.text s]) c := by
@@ -502,85 +379,6 @@ theorem render_protectP (ps : List Piece) : render (protectP ps) = protectStatem
     · rename_i c h2
       exact absurd h2 (h _)
     · rfl
-
-/-! #### the `lines()` round trip keeps the pieces -/
-
-theorem Kept_withShown (p : Piece) (s : String) (hp : p.Kept) (hs : keptL s.toList p.shown.toList) :
-    (p.withShown s).Kept := by
-  cases p with
-  | text _ => trivial
-  | comment o sh => exact keptL_trans hs hp
-
-theorem origs_withShown_cons (p : Piece) (s : String) (l : List Piece) :
-    commentOrigs (p.withShown s :: l) = commentOrigs (p :: l) := by
-  cases p <;> rfl
-
-theorem origs_stripP : ∀ ps : List Piece, commentOrigs (stripP ps) = commentOrigs ps
-  | [] => rfl
-  | p :: rest => by
-    have ih := origs_stripP rest
-    simp only [stripP]
-    cases p with
-    | text s => simp only [Piece.withShown, origs_text, ih]
-    | comment o s => simp only [Piece.withShown, origs_comment, ih]
-
-theorem kept_stripP : ∀ ps : List Piece, (∀ p ∈ ps, p.Kept) → ∀ p ∈ stripP ps, p.Kept
-  | [], _, _, h => by cases h
-  | p :: rest, hk, q, hq => by
-    simp only [stripP] at hq
-    rcases List.mem_cons.mp hq with rfl | hq
-    · apply Kept_withShown _ _ (hk p List.mem_cons_self)
-      rw [String.toList_ofList]
-      exact keptL_stripCRs _ _
-    · exact kept_stripP rest (fun p hp => hk p (List.mem_cons_of_mem _ hp)) q hq
-
-theorem origs_dropFinalNlRev : ∀ ps : List Piece, commentOrigs (dropFinalNlRev ps) = commentOrigs ps
-  | [] => rfl
-  | p :: before => by
-    simp only [dropFinalNlRev]
-    split
-    · cases p with
-      | text s => simp only [origs_text, origs_dropFinalNlRev before]
-      | comment o s => simp only [origs_comment, origs_dropFinalNlRev before]
-    · split
-      · exact origs_withShown_cons _ _ _
-      · rfl
-
-theorem kept_dropFinalNlRev : ∀ ps : List Piece, (∀ p ∈ ps, p.Kept) →
-    ∀ p ∈ dropFinalNlRev ps, p.Kept
-  | [], _, _, h => by cases h
-  | p :: before, hk, q, hq => by
-    simp only [dropFinalNlRev] at hq
-    split at hq
-    · rcases List.mem_cons.mp hq with rfl | hq
-      · exact hk _ List.mem_cons_self
-      · exact kept_dropFinalNlRev before (fun p hp => hk p (List.mem_cons_of_mem _ hp)) q hq
-    · split at hq
-      · rename_i hnl
-        rcases List.mem_cons.mp hq with rfl | hq
-        · apply Kept_withShown _ _ (hk p List.mem_cons_self)
-          rw [String.toList_ofList]
-          exact keptL_dropLast _ (by simpa using hnl)
-        · exact hk q (List.mem_cons_of_mem _ hq)
-      · exact hk q hq
-
-theorem origs_reverse (ps : List Piece) : commentOrigs ps.reverse = (commentOrigs ps).reverse := by
-  simp [commentOrigs, List.filterMap_reverse]
-
-theorem Good.reline {ps : List Piece} {c : List String} (h : Good ps c) : Good (relineP ps) c := by
-  have hs : Good (stripP ps) c := ⟨by rw [origs_stripP]; exact h.1, kept_stripP ps h.2⟩
-  unfold relineP
-  simp only
-  split
-  · refine ⟨?_, ?_⟩
-    · unfold dropFinalNl
-      rw [origs_reverse, origs_dropFinalNlRev, origs_reverse, List.reverse_reverse]
-      exact hs.1
-    · intro p hp
-      unfold dropFinalNl at hp
-      rw [List.mem_reverse] at hp
-      exact kept_dropFinalNlRev _ (fun q hq => hs.2 q (List.mem_reverse.mp hq)) p hp
-  · exact hs
 
 /-! ### the per-kind layouts keep the comments of the parts they are given -/
 
@@ -634,9 +432,7 @@ theorem good_binLayout (w indent : Nat) (op : BinOp) (l r : Expr) (lP : List Pie
   simp only
   split
   · split
-    · split
-      · exact Good.append (Good.paren _ hl) (Good.text _ (Good.reline (Good.paren _ hrS)))
-      · exact Good.append (Good.paren _ hl) (Good.text _ (Good.paren _ hrS))
+    · exact Good.append (Good.paren _ hl) (Good.text _ (Good.paren _ hrS))
     · exact Good.append (Good.paren _ hl) (Good.text _ (Good.paren _ hrS))
   · exact Good.append (Good.paren _ hl) (Good.text _ (Good.paren _ hrI))
 
@@ -893,386 +689,21 @@ theorem good_multi (w indent : Nat) (e : Expr) (h : ∀ args body, e ≠ .lambda
   | num _ | str _ | bool _ | null | ident _ | inref _ | builtin _ =>
     simp only [fmtMultiP, commentsG]; exact Good.single _
 
-/-! ### from `Good` to the comment pieces of the output -/
-
-/-- if the comments are clean, the output shows them exactly -/
-theorem Good.shown_eq : ∀ {ps : List Piece} {cs : List String}, Good ps cs →
-    (∀ c ∈ cs, cleanComment c) → commentPieces ps = cs
-  | [], _, h, _ => by rw [← h.1]; rfl
-  | .text s :: l, cs, h, hc => by
-    rw [shown_text]
-    exact Good.shown_eq (ps := l) ⟨by rw [← h.1, origs_text], fun p hp => h.2 p (List.mem_cons_of_mem _ hp)⟩ hc
-  | .comment o s :: l, cs, h, hc => by
-    have h1 := h.1
-    rw [origs_comment] at h1
-    subst h1
-    have hk : CommentKept s o := h.2 _ List.mem_cons_self
-    rw [shown_comment, hk.eq_of_clean (hc o List.mem_cons_self)]
-    congr 1
-    exact Good.shown_eq (ps := l) ⟨rfl, fun p hp => h.2 p (List.mem_cons_of_mem _ hp)⟩
-      (fun c hcm => hc c (List.mem_cons_of_mem _ hcm))
-
-/-- in general: as many comment pieces as comments, and the i-th shows the i-th comment -/
-theorem Good.shown_kept : ∀ {ps : List Piece} {cs : List String}, Good ps cs →
-    (commentPieces ps).length = cs.length ∧
-    ∀ i (h1 : i < (commentPieces ps).length) (h2 : i < cs.length),
-      CommentKept ((commentPieces ps)[i]) (cs[i])
-  | [], _, h => by
-    rw [← h.1]
-    exact ⟨rfl, fun i h1 _ => by cases h1⟩
-  | .text s :: l, cs, h => by
-    rw [shown_text]
-    exact Good.shown_kept (ps := l) ⟨by rw [← h.1, origs_text], fun p hp => h.2 p (List.mem_cons_of_mem _ hp)⟩
-  | .comment o s :: l, cs, h => by
-    have h1 := h.1
-    rw [origs_comment] at h1
-    subst h1
-    have hk : CommentKept s o := h.2 _ List.mem_cons_self
-    have ih := Good.shown_kept (ps := l) ⟨rfl, fun p hp => h.2 p (List.mem_cons_of_mem _ hp)⟩
-    refine ⟨by simp only [shown_comment, List.length_cons, ih.1], ?_⟩
-    intro i h1 h2
-    cases i with
-    | zero => simpa [shown_comment] using hk
-    | succ i =>
-      simp only [shown_comment, List.getElem_cons_succ]
-      exact ih.2 i _ _
-
-/-! ### `relineP` is the `lines()` / `join("\n")` expression of `format_binary_op_multiline` -/
-
-def joinNl : List (List Char) → List Char
-  | [] => []
-  | [l] => l
-  | l :: m :: r => l ++ '\n' :: joinNl (m :: r)
-
-/-- delete a final line feed -/
-def dropNl1 (x : List Char) : List Char := if x.getLast? = some '\n' then x.dropLast else x
-
-/-- `relines` on characters, for a text with a line feed -/
-def relinesL (cs : List Char) : List Char :=
-  match linesL cs with
-  | [] => cs
-  | l0 :: rest => l0 ++ '\n' :: joinNl rest
-
-/-- the description used by `relineP` -/
-def T1 (cs : List Char) : List Char :=
-  let q := stripCRs none cs
-  if q.getLast? = some '\n' ∧ 2 ≤ q.count '\n' then q.dropLast else q
-
-theorem head?_orElse_none (t : List Char) : (t.head? <|> none) = t.head? := by
-  cases t.head? <;> rfl
-
-theorem skip_cases {c : Char} {t : List Char} (h : (c == '\r' && t.head? == some '\n') = true) :
-    c = '\r' ∧ ∃ t', t = '\n' :: t' := by
-  simp only [Bool.and_eq_true, beq_iff_eq] at h
-  refine ⟨h.1, ?_⟩
-  cases t with
-  | nil => simp at h
-  | cons d t' =>
-    simp only [List.head?_cons, Option.some.injEq] at h
-    exact ⟨t', by rw [h.2]⟩
-
-theorem stripCRs_none_cons (c : Char) (t : List Char) :
-    stripCRs none (c :: t) =
-      if (c == '\r' && t.head? == some '\n') = true then stripCRs none t else c :: stripCRs none t := by
-  simp only [stripCRs, head?_orElse_none]
-
-theorem stripCRs_nl_cons (t : List Char) : stripCRs none ('\n' :: t) = '\n' :: stripCRs none t := by
-  rw [stripCRs_none_cons]
-  have : ¬ (('\n' : Char) == '\r' && t.head? == some '\n') = true := by simp
-  rw [if_neg this]
-
-theorem linesL_eq_nil : ∀ cs : List Char, linesL cs = [] ↔ cs = []
-  | [] => by simp [linesL]
-  | c :: t => by
-    simp only [linesL]
-    split
-    · simp
-    · split
-      · rename_i h
-        obtain ⟨_, t', rfl⟩ := skip_cases h
-        simp [linesL]
-      · cases h : linesL t <;> simp [consLine]
-
-theorem stripCRs_eq_nil : ∀ cs : List Char, stripCRs none cs = [] ↔ cs = []
-  | [] => by simp [stripCRs]
-  | c :: t => by
-    rw [stripCRs_none_cons]
-    split
-    · rename_i h
-      obtain ⟨_, t', rfl⟩ := skip_cases h
-      simp [stripCRs_nl_cons]
-    · simp
-
-theorem joinNl_consLine (c : Char) : ∀ ls : List (List Char), joinNl (consLine c ls) = c :: joinNl ls
-  | [] => rfl
-  | [_] => rfl
-  | _ :: _ :: _ => rfl
-
-theorem joinNl_nil_cons (ls : List (List Char)) :
-    joinNl ([] :: ls) = if ls = [] then [] else '\n' :: joinNl ls := by
-  cases ls <;> simp [joinNl]
-
-theorem dropNl1_cons (c : Char) {x : List Char} (hx : x ≠ []) : dropNl1 (c :: x) = c :: dropNl1 x := by
-  unfold dropNl1
-  rw [List.getLast?_cons_of_ne_nil hx] 
-  split
-  · rw [List.dropLast_cons_of_ne_nil hx]
-  · rfl
-
-/-- joining the lines again gives the text without the carriage returns in front of line
-    feeds and without a final line feed -/
-theorem joinNl_linesL : ∀ cs : List Char, joinNl (linesL cs) = dropNl1 (stripCRs none cs)
-  | [] => by simp [linesL, joinNl, stripCRs, dropNl1]
-  | c :: t => by
-    have ih := joinNl_linesL t
-    by_cases hc : c = '\n'
-    · subst hc
-      rw [stripCRs_nl_cons]
-      simp only [linesL, beq_self_eq_true, if_true]
-      rw [joinNl_nil_cons]
-      by_cases ht : t = []
-      · subst ht; simp [linesL, stripCRs, dropNl1]
-      · have h1 : linesL t ≠ [] := fun h => ht ((linesL_eq_nil t).mp h)
-        have h2 : stripCRs none t ≠ [] := fun h => ht ((stripCRs_eq_nil t).mp h)
-        rw [if_neg h1, ih, dropNl1_cons _ h2]
-    · have hb : (c == '\n') = false := by simpa using hc
-      rw [stripCRs_none_cons]
-      simp only [linesL, hb, Bool.false_eq_true, if_false]
-      split
-      · exact ih
-      · rw [joinNl_consLine, ih]
-        by_cases h2 : stripCRs none t = []
-        · simp [h2, hc, dropNl1]
-        · rw [dropNl1_cons _ h2]
-
-theorem count_pos_of_getLast? {x : List Char} {a : Char} (h : x.getLast? = some a) : 1 ≤ x.count a := by
-  have : a ∈ x := List.mem_of_getLast? h
-  exact List.count_pos_iff.mpr this
-
-theorem T1_nl_cons (t : List Char) : T1 ('\n' :: t) = '\n' :: dropNl1 (stripCRs none t) := by
-  unfold T1
-  simp only [stripCRs_nl_cons]
-  by_cases h2 : stripCRs none t = []
-  · simp [h2, dropNl1]
-  · rw [List.getLast?_cons_of_ne_nil h2, List.count_cons_self, List.dropLast_cons_of_ne_nil h2]
-    unfold dropNl1
-    by_cases hl : (stripCRs none t).getLast? = some '\n'
-    · have := count_pos_of_getLast? hl
-      rw [if_pos ⟨hl, by omega⟩, if_pos hl]
-    · rw [if_neg (fun h => hl h.1), if_neg hl]
-
-theorem T1_cons (c : Char) (t : List Char) (hc : c ≠ '\n') (h2 : stripCRs none t ≠ [])
-    (hs : ¬ (c == '\r' && t.head? == some '\n') = true) : T1 (c :: t) = c :: T1 t := by
-  unfold T1
-  simp only [stripCRs_none_cons, if_neg hs]
-  rw [List.getLast?_cons_of_ne_nil h2, List.count_cons_of_ne hc, List.dropLast_cons_of_ne_nil h2]
-  split <;> rfl
-
-theorem T1_skip (c : Char) (t : List Char) (hs : (c == '\r' && t.head? == some '\n') = true) :
-    T1 (c :: t) = T1 t := by
-  unfold T1
-  simp only [stripCRs_none_cons, if_pos hs]
-
-/-- the `format!("{}\n{}", first_line, remaining_lines)` of a text with a line feed -/
-theorem relinesL_eq_T1 : ∀ cs : List Char, '\n' ∈ cs → relinesL cs = T1 cs
-  | [], h => by cases h
-  | c :: t, h => by
-    by_cases hc : c = '\n'
-    · subst hc
-      rw [T1_nl_cons, ← joinNl_linesL]
-      simp [relinesL, linesL]
-    · have hb : (c == '\n') = false := by simpa using hc
-      have ht : '\n' ∈ t := by
-        rcases List.mem_cons.mp h with h | h
-        · exact absurd h.symm hc
-        · exact h
-      have hne : t ≠ [] := by intro h0; subst h0; cases ht
-      have h1 : linesL t ≠ [] := fun h => hne ((linesL_eq_nil t).mp h)
-      have ih := relinesL_eq_T1 t ht
-      by_cases hs : (c == '\r' && t.head? == some '\n') = true
-      · rw [T1_skip c t hs, ← ih]
-        simp only [relinesL, linesL, hb, Bool.false_eq_true, if_false, hs, if_true]
-        cases hl : linesL t with
-        | nil => exact absurd hl h1
-        | cons l0 rest => rfl
-      · have h2 : stripCRs none t ≠ [] := fun h => hne ((stripCRs_eq_nil t).mp h)
-        rw [T1_cons c t hc h2 hs, ← ih]
-        simp only [relinesL, linesL, hb, Bool.false_eq_true, if_false, hs]
-        cases hl : linesL t with
-        | nil => exact absurd hl h1
-        | cons l0 rest => simp [consLine]
-
-theorem firstLineL_eq_head : ∀ (cs : List Char) (l0 : List Char) (rest : List (List Char)),
-    linesL cs = l0 :: rest → firstLineL cs = l0
-  | [], _, _, h => by simp [linesL] at h
-  | c :: t, l0, rest, h => by
-    simp only [linesL] at h
-    simp only [firstLineL]
-    split at h
-    · rename_i hc
-      rw [if_pos hc]
-      simp only [List.cons.injEq] at h
-      exact h.1
-    · rename_i hc
-      rw [if_neg hc]
-      split at h
-      · rename_i hs
-        rw [if_pos hs]
-        obtain ⟨_, t', rfl⟩ := skip_cases hs
-        simp only [linesL, beq_self_eq_true, if_true, List.cons.injEq] at h
-        exact h.1
-      · rename_i hs
-        rw [if_neg hs]
-        cases hl : linesL t with
-        | nil =>
-          have : t = [] := (linesL_eq_nil t).mp hl
-          subst this
-          rw [hl] at h
-          simp only [consLine, List.cons.injEq] at h
-          simp [firstLineL, h.1]
-        | cons l1 r1 =>
-          rw [hl] at h
-          simp only [consLine, List.cons.injEq] at h
-          rw [firstLineL_eq_head t l1 r1 hl, h.1.symm]
-
-theorem intercalate_nl : ∀ ls : List (List Char), List.intercalate ['\n'] ls = joinNl ls
-  | [] => rfl
-  | [l] => by simp [List.intercalate, joinNl]
-  | l :: m :: r => by
-    have ih := intercalate_nl (m :: r)
-    simp only [List.intercalate, List.intersperse_cons_cons, List.flatten_cons] at ih ⊢
-    simp [joinNl, ih]
-
-theorem relines_toList (s : String) (h : '\n' ∈ s.toList) : (relines s).toList = T1 s.toList := by
-  rw [← relinesL_eq_T1 _ h]
-  have hne : s.toList ≠ [] := by intro h0; rw [h0] at h; cases h
-  cases hl : linesL s.toList with
-  | nil => exact absurd ((linesL_eq_nil _).mp hl) hne
-  | cons l0 rest =>
-    simp only [relines, restLines, rustLines, firstLine, relinesL, hl, String.toList_append,
-      String.toList_ofList, firstLineL_eq_head _ _ _ hl, List.map_cons, List.drop_succ_cons,
-      List.drop_zero, String.toList_intercalate, List.map_map]
-    have : (List.map (String.toList ∘ String.ofList) rest) = rest := by
-      induction rest with
-      | nil => rfl
-      | cons a r ih => simp
-    rw [this, ← intercalate_nl]
-    have hnl : "\n".toList = ['\n'] := by decide
-    rw [hnl, List.append_assoc]
-    rfl
-
-theorem render_toList_cons (p : Piece) (l : List Piece) :
-    (render (p :: l)).toList = p.shown.toList ++ (render l).toList := by
-  rw [render_cons, String.toList_append]
-
-theorem firstCharP_eq : ∀ ps : List Piece, firstCharP ps = (render ps).toList.head?
-  | [] => rfl
-  | p :: rest => by
-    rw [render_toList_cons]
-    simp only [firstCharP]
-    cases h : p.shown.toList with
-    | nil => simpa using firstCharP_eq rest
-    | cons c t => simp
-
-theorem orElse_head?_append (a b : List Char) (next : Option Char) :
-    ((a ++ b).head? <|> next) = (a.head? <|> (b.head? <|> next)) := by
-  cases a <;> simp
-
-theorem stripCRs_append (next : Option Char) : ∀ a b : List Char,
-    stripCRs next (a ++ b) = stripCRs (b.head? <|> next) a ++ stripCRs next b
-  | [], b => by simp [stripCRs]
-  | c :: a, b => by
-    simp only [List.cons_append, stripCRs, orElse_head?_append, stripCRs_append next a b]
-    split <;> simp
-
-theorem withShown_shown (p : Piece) (s : String) : (p.withShown s).shown = s := by
-  cases p <;> rfl
-
-theorem render_stripP : ∀ ps : List Piece,
-    (render (stripP ps)).toList = stripCRs none (render ps).toList
-  | [] => by simp [stripP, render_nil, stripCRs]
-  | p :: rest => by
-    simp only [stripP]
-    rw [render_toList_cons, render_toList_cons, withShown_shown, String.toList_ofList,
-      stripCRs_append, render_stripP rest, firstCharP_eq]
-    cases (render rest).toList.head? <;> rfl
-
-theorem render_reverse_cons (p : Piece) (before : List Piece) :
-    (render (p :: before).reverse).toList = (render before.reverse).toList ++ p.shown.toList := by
-  rw [List.reverse_cons, render_append, String.toList_append, render_toList_cons, render_nil]
-  simp
-
-theorem getLast?_append_ne (a b : List Char) (h : b ≠ []) : (a ++ b).getLast? = b.getLast? := by
-  rw [List.getLast?_append]
-  cases b with
-  | nil => exact absurd rfl h
-  | cons c t =>
-    rw [List.getLast?_eq_some_getLast (by simp)]
-    rfl
-
-theorem render_dropFinalNlRev : ∀ rs : List Piece,
-    (render rs.reverse).toList.getLast? = some '\n' →
-    (render (dropFinalNlRev rs).reverse).toList = (render rs.reverse).toList.dropLast
-  | [], h => by simp [render_nil] at h
-  | p :: before, h => by
-    rw [render_reverse_cons] at h ⊢
-    simp only [dropFinalNlRev]
-    by_cases he : p.shown.toList = []
-    · rw [he] at h ⊢
-      simp only [List.isEmpty_nil, if_true, List.append_nil] at h ⊢
-      rw [render_reverse_cons, he, List.append_nil]
-      exact render_dropFinalNlRev before h
-    · have hie : p.shown.toList.isEmpty = false := by simpa using he
-      rw [getLast?_append_ne _ _ he] at h
-      simp only [hie, Bool.false_eq_true, if_false, h, beq_self_eq_true, if_true]
-      rw [render_reverse_cons, withShown_shown, String.toList_ofList,
-        List.dropLast_append_of_ne_nil he]
-
-/-- `relineP` is `relines` on the rendered text: the pieces of the via / into / where branch
-    render to exactly what `format!("{} {} {}\n{}", left, op, first_line, remaining_lines)`
-    gives -/
-theorem render_relineP (ps : List Piece) (h : hasNewline (render ps) = true) :
-    render (relineP ps) = relines (render ps) := by
-  have hm : '\n' ∈ (render ps).toList := by
-    simpa [hasNewline, List.contains_iff_mem] using h
-  apply String.toList_inj.mp
-  rw [relines_toList _ hm]
-  unfold relineP T1
-  simp only [render_stripP]
-  by_cases hc : (stripCRs none (render ps).toList).getLast? = some '\n' ∧
-      2 ≤ (stripCRs none (render ps).toList).count '\n'
-  · have hb : ((stripCRs none (render ps).toList).getLast? == some '\n' &&
-        decide (2 ≤ (stripCRs none (render ps).toList).count '\n')) = true := by
-      simp [hc.1, hc.2]
-    rw [if_pos hb, if_pos hc]
-    unfold dropFinalNl
-    have := render_dropFinalNlRev (stripP ps).reverse
-    rw [List.reverse_reverse, render_stripP] at this
-    exact this hc.1
-  · have hb : ¬ ((stripCRs none (render ps).toList).getLast? == some '\n' &&
-        decide (2 ≤ (stripCRs none (render ps).toList).count '\n')) = true := by
-      intro hb
-      simp only [Bool.and_eq_true, beq_iff_eq, decide_eq_true_eq] at hb
-      exact hc hb
-    rw [if_neg hb, if_neg hc, render_stripP]
-
-/-- the via / into / where branch of `format_binary_op_multiline` with a right operand of
-    several lines whose first line fits: the rendered pieces are the text of
-    `format!("{} {} {}\n{}", left_str, op_str, first_line_of_right, remaining_lines)` -/
+/-- the via / into / where branch of `format_binary_op_multiline` whose first line fits: the
+    rendered pieces are `format!("{} {} {}", left_str, op_str, right_str)` — the right operand
+    as it was formatted -/
 theorem render_binLayout_chain (w indent : Nat) (op : BinOp) (l r : Expr) (lP : List Piece)
     (rSame rIn : Unit → List Piece)
     (hchain : (op == .via || op == .into || op == .where_) = true) (hlam : isLambda r = true)
-    (hnl : hasNewline (render (parenP (needsParens r (.binRight op)) (rSame ()))) = true)
     (hfit : indent + blen (render (parenP (needsParens l (.binLeft op)) lP) ++ " " ++ fmtSpelling op ++
       " " ++ firstLine (render (parenP (needsParens r (.binRight op)) (rSame ())))) ≤ w) :
     render (binLayout w indent op l r lP rSame rIn) =
       render (parenP (needsParens l (.binLeft op)) lP) ++ " " ++ fmtSpelling op ++ " " ++
-        firstLine (render (parenP (needsParens r (.binRight op)) (rSame ()))) ++ "\n" ++
-        restLines (render (parenP (needsParens r (.binRight op)) (rSame ()))) := by
+        render (parenP (needsParens r (.binRight op)) (rSame ())) := by
   unfold binLayout
-  simp only [hchain, hlam, Bool.and_self, if_true, hnl]
+  simp only [hchain, hlam, Bool.and_self, if_true]
   rw [if_pos hfit]
-  simp only [render_append, render_text, render_relineP _ hnl, relines, String.append_assoc]
+  simp only [render_append, render_text, String.append_assoc]
 
 end FormatP
 end Blots
